@@ -5,6 +5,7 @@ simulated disk; consumer stops, element exceptions, drop_cache,
 recompute, hoisting by alter_sequence; reference model with sets of
 allowed stored flows.  See DESIGN.md section 3, C18.
 """
+import copy
 import gc
 import itertools
 
@@ -47,7 +48,7 @@ ASSUMPTIONS = [
 FAULT_KINDS = ["read-error-EIO", "consumer-stop-close", "consumer-stop-drop", "raise-downstream",
                "raise-upstream-source", "raise-upstream-element", "drop_cache",
                "recompute", "process-crash"]
-EXPECTED_PROBES = ["same-object-reused", "split-form-replay", "read-error-surfaced-loudly", "replay-run", "replay-after-interrupted-run", "stop-at-exact-length",
+EXPECTED_PROBES = ["source-reuses-one-context-object", "same-object-reused", "split-form-replay", "read-error-surfaced-loudly", "replay-run", "replay-after-interrupted-run", "stop-at-exact-length",
                    "two-caches-inner-replay", "hoisted-to-source", "empty-flow-cached",
                    "interrupted-recompute-over-existing-cache", "accumulator-upstream-of-replay"]
 
@@ -77,13 +78,21 @@ class Op(object):
 def gen_scenario(tape):
     sc = Op()
     sc.with_context = bool(tape.draw(2, "context"))
+    # the source re-uses one context dictionary for every value and updates it in place
+    sc.shared_ctx = sc.with_context and tape.chance(1, 3, "source-reuses-one-context-object")
     sc.form = tape.weighted([(3, "sequence"), (3, "source"), (2, "split")], "form")
+    if sc.form == "split":
+        # Split buffers the block before any branch runs: with an aliased input flow
+        # every buffered value shows the last state, whatever the Cache does
+        sc.shared_ctx = False
     # the same pipeline object (same Cache elements) is used for every run of the history
     sc.reuse = tape.chance(1, 4, "reuse-objects")
     sc.ncaches = tape.weighted([(3, 1), (2, 2)], "ncaches")
     sc.npre = tape.draw(3, "npre")
     sc.pre_kinds = [tape.choice(["call", "run"], "prekind") for _ in range(sc.npre)]
     sc.fc = tape.chance(1, 6, "fc-upstream") and not sc.reuse
+    if sc.fc:
+        sc.shared_ctx = False     # an accumulator stores the (aliased) values it is filled with
     sc.bare = bool(tape.draw(2, "bare-cache-in-split"))
     sc.nmid = tape.draw(2, "nmid") if sc.ncaches == 2 else 0
     sc.npost = tape.draw(3, "npost")
@@ -219,7 +228,14 @@ class Pipeline(object):
     def configure(self, op, r):
         """Prepare for run r: a new input flow, the fault plan, zeroed counters."""
         sc = self.sc
-        self.src = SimSource(self.log, "src", op.n, lambda i: value(r, i, sc.with_context),
+        make = lambda i: value(r, i, sc.with_context)
+        if getattr(sc, "shared_ctx", False):
+            shared = {"run": r, "idx": {"i": -1}}
+
+            def make(i, shared=shared):
+                shared["idx"]["i"] = i
+                return (("v", r, i), shared)
+        self.src = SimSource(self.log, "src", op.n, make,
                              raise_at=op.k if (op.kind == "raise-up" and op.target == "src") else None)
         for p in self.pre + self.mid + self.post:
             p.raise_at = op.k if (op.kind in ("raise-up", "raise-down")
@@ -354,6 +370,9 @@ def run(tape):
     shared = {"pl": None}
     if sc.reuse:
         res.say("pipeline objects are re-used between runs unless a run says 'new object'")
+    if getattr(sc, "shared_ctx", False):
+        res.say("the source re-uses one context dictionary for all values and updates it in place")
+        res.probe("source-reuses-one-context-object")
     last_interrupt = None      # kind of the last interrupted dump run
     interrupted_before = False
     r = 0
@@ -481,7 +500,8 @@ def execute_run(sc, op, log, r, res, fs, shared=None):
             except StopIteration:
                 exhausted = True
                 break
-            out.append(v)
+            # a snapshot: the source may update the context object of the value in place
+            out.append(copy.deepcopy(v) if getattr(sc, "shared_ctx", False) else v)
             log.ev("out", len(out) - 1, summarize(v))
         if op.kind == "stop" and not exhausted:
             if op.how == "close":
